@@ -192,6 +192,19 @@ raises("to_decimal rounds out of range", sf.SfError, sf.to_decimal, "99999.5", 5
 raises("to_decimal too many digits", sf.SfError, sf.to_decimal, "123456", 5, 0)
 raises("to_decimal (4,2) of 123.45", sf.SfError, sf.to_decimal, Decimal("123.45"), 4, 2)
 raises("to_decimal not a number", sf.SfError, sf.to_decimal, "abc")
+# precision limits: nothing may be rounded to the 28 digits of Python's default decimal context
+eq("to_decimal 38 nines fit NUMBER(38,0)", sf.to_decimal("9" * 38, 38, 0), Decimal("9" * 38))
+eq("to_decimal -38 nines", sf.to_decimal("-" + "9" * 38, 38, 0), Decimal("-" + "9" * 38))
+raises("to_decimal 10**38 does not fit", sf.SfError, sf.to_decimal, "1" + "0" * 38, 38, 0)
+eq("to_decimal 37 nines fit NUMBER(38,1)", sf.to_decimal("9" * 37, 38, 1), Decimal("9" * 37 + ".0"))
+eq("to_decimal largest NUMBER(38,37)", sf.to_decimal("9." + "9" * 37, 38, 37), Decimal("9." + "9" * 37))
+raises("to_decimal 10 does not fit NUMBER(38,37)", sf.SfError, sf.to_decimal, "10", 38, 37)
+eq("to_decimal 2**63 fits NUMBER(19,0)", sf.to_decimal("9223372036854775808", 19, 0), Decimal(2**63))
+eq("to_decimal largest NUMBER(19,0)", sf.to_decimal("9999999999999999999", 19, 0), Decimal(10**19 - 1))
+raises("to_decimal 10**19 does not fit NUMBER(19,0)", sf.SfError, sf.to_decimal, "10000000000000000000", 19, 0)
+eq("try_to_decimal 10**19 NUMBER(19,0)", sf.try_to_decimal("10000000000000000000", 19, 0), None)
+eq("to_decimal 2**64+1 fits NUMBER(20,0)", sf.to_decimal(Decimal(2**64 + 1), 20, 0), Decimal(2**64 + 1))
+raises("to_decimal 2**63 does not fit NUMBER(18,0)", sf.SfError, sf.to_decimal, "9223372036854775808", 18, 0)
 eq("try_to_decimal not a number", sf.try_to_decimal("abc"), None)
 eq("try_to_decimal out of range", sf.try_to_decimal("123456", 5, 0), None)
 eq("try_to_decimal ok", sf.try_to_decimal("12.345", 10, 2), Decimal("12.35"))
